@@ -240,7 +240,61 @@ func evalC06(c C06Case) *h.Finding {
 	return nil
 }
 
-func init() { h.RegisterReplayer("c06", evalC06) }
+// ---- declared chunk sizes near the integer boundaries ------------------------------------------
+
+type C06HugeCase struct {
+	Mode  string `json:"mode"`
+	N     int64  `json:"n"`
+	First int    `json:"first"` // size of an ordinary first chunk (0: none)
+	Huge  string `json:"huge"`  // the declared size of the huge chunk
+	Last  bool   `json:"last"`  // the huge chunk carries LAST
+}
+
+func evalC06Huge(c C06HugeCase) *h.Finding {
+	cfg, be := modeConfig(c.Mode)
+	cfg.MaxMessageBytes = c.N
+	var in strings.Builder
+	in.WriteString(hello(c.Mode) + "MAIL FROM:<ok@a.example>\r\nRCPT TO:<ok@b.example>\r\n")
+	if c.First > 0 {
+		fmt.Fprintf(&in, "BDAT %d\r\n%s", c.First, strings.Repeat("f", c.First))
+	}
+	last := ""
+	if c.Last {
+		last = " LAST"
+	}
+	fmt.Fprintf(&in, "BDAT %s%s\r\n", c.Huge, last)
+	// what a client that got away with it would send next: far more than the limit, then LAST
+	fmt.Fprintf(&in, "BDAT %d LAST\r\n%s", c.N+100, strings.Repeat("x\n", int(c.N+100)/2))
+	in.WriteString("NOOP\r\n")
+	o := h.RunS(cfg, be, h.OneSeg([]byte(in.String())), h.TermEOF)
+	desc := fmt.Sprintf("mode=%s N=%d first=%d declared size %s last=%t", c.Mode, c.N, c.First, c.Huge, c.Last)
+	if f := o.Sanity("c06", desc); f != nil {
+		return f
+	}
+	for _, e := range o.Trace {
+		if e.Kind == "Data" || e.Kind == "LMTPData" {
+			if int64(len(e.Body)) > c.N {
+				return h.F("c06-backend-read-too-much", "%s: backend read %d octets (limit %d)", desc, len(e.Body), c.N)
+			}
+			if e.ReadErr == "EOF" {
+				return h.F("c06-over-limit-eof", "%s: a transfer with a declared size far above the limit ended with a clean EOF after %d octets (replies %s)", desc, len(e.Body), o.Codes())
+			}
+		}
+	}
+	idx := 4
+	if c.First > 0 {
+		idx = 5
+	}
+	if len(o.Replies) <= idx || o.Replies[idx].Class() != 5 {
+		return h.F("c06-huge-chunk-accepted", "%s: the chunk was not refused: replies %s", desc, o.Codes())
+	}
+	return nil
+}
+
+func init() {
+	h.RegisterReplayer("c06", evalC06)
+	h.RegisterReplayer("c06-huge", evalC06Huge)
+}
 
 // compositions calls f for every sequence of 1..maxParts non-negative
 // integers that sum to m (so empty chunks are included).
@@ -266,7 +320,7 @@ func C06(tier string) int {
 	if tier == "thorough" {
 		Ns = []int64{1, 2, 3, 5, 8, 13, 64, 4096, 4097}
 	}
-	run.Rule = fmt.Sprintf("limits N in %v x message sizes N-2..N+2 and 4N x {DATA (plain and dot-stuffed lines), every division into <=3 BDAT chunks incl. empty ones} x backend read sizes {1,3,N,4096} x {one segment, one octet per segment} x {SMTP, LMTP, LMTP per-recipient}; MAIL SIZE=s for s in {0,1,N-1,N,N+1,10N} for N and for no limit. Distinct by construction; non-trivial = size within 2 of the limit or above it. Oracle: backend octets <= N; over the limit: reader fails (no EOF), 552, probe RCPT refused; within: observation identical to the same conversation on a server without limit (differential).", Ns)
+	run.Rule = fmt.Sprintf("limits N in %v x message sizes N-2..N+2 and 4N x {DATA (plain and dot-stuffed lines), every division into <=3 BDAT chunks incl. empty ones} x backend read sizes {1,3,N,4096} x {one segment, one octet per segment} x {SMTP, LMTP, LMTP per-recipient}; MAIL SIZE=s for s in {0,1,N-1,N,N+1,10N} for N and for no limit; BDAT with a declared size at the integer boundaries (2^32-1, 2^32, 2^63-1, 2^63, 2^64-100, 2^64-1, 2^64, 10^23) as first or second chunk, with and without LAST, followed by an over-limit LAST chunk. Distinct by construction; non-trivial = size within 2 of the limit or above it. Oracle: backend octets <= N; over the limit: reader fails (no EOF), 552, probe RCPT refused; within: observation identical to the same conversation on a server without limit (differential).", Ns)
 	run.Assumptions = []string{"message size = octets after dot-unstuffing, incl. the CRLF in front of the end marker (RFC 1870)", "the backend reads the message to the end and returns the reader's error (a backend that stops early and returns nil claims success itself)", "declared SIZE values >= 2^32 are outside the quantifier"}
 	var cases []C06Case
 	seen := map[string]bool{}
@@ -342,6 +396,32 @@ func C06(tier string) int {
 		}
 		if i%997 == 3 {
 			run.Sample("case", 6, c)
+		}
+	})
+	var hcases []C06HugeCase
+	for _, mode := range modes {
+		for _, n := range []int64{10, 64} {
+			for _, first := range []int{0, 3} {
+				for _, huge := range []string{"4294967295", "4294967296", "4294967306", "9223372036854775807", "9223372036854775808", "18446744073709551516", "18446744073709551615", "18446744073709551616", "99999999999999999999999"} {
+					for _, last := range []bool{false, true} {
+						hcases = append(hcases, C06HugeCase{Mode: mode, N: n, First: first, Huge: huge, Last: last})
+					}
+				}
+			}
+		}
+	}
+	h.ParallelFor(len(hcases), func(i int) {
+		c := hcases[i]
+		f := evalC06Huge(c)
+		run.Eval(true)
+		if f != nil {
+			run.Violate("c06-huge", c, f, func() *h.Finding { return evalC06Huge(c) })
+			run.Outcome("violation:" + f.Sig)
+		} else {
+			run.Outcome("huge-chunk-refused")
+		}
+		if i%97 == 0 {
+			run.Sample("huge-chunk", 2, c)
 		}
 	})
 	return run.Finish()
